@@ -112,7 +112,7 @@ def property_file_ok(pid):
     sentences = [s.strip() for s in re.split(r"\.\s", txt + " ") if s.strip()]
     bad = []
     for s in sentences:
-        if re.match(r"^(From|Require|Import|Local Open Scope|Open Scope|Theorem|Proof|exact|Qed|Check|Print Assumptions|Set Printing|Unset Printing)\b", s):
+        if re.match(r"^(From|Require|Import|Local Open Scope|Local Close Scope|Open Scope|Close Scope|Theorem|Proof|exact|Qed|Check|Print Assumptions|Set Printing|Unset Printing)\b", s):
             continue
         bad.append(s[:80])
     return bad
